@@ -163,7 +163,13 @@ func EachLayout(nmin, nmax, mixUpTo int, sizes []uint64, f func(idx int64, l *La
 						continue
 					}
 					for _, dyn := range []bool{false, true} {
-						for _, v0 := range v0Alphabet {
+						v0s := v0Alphabet
+						if !dyn {
+							// a fixed-address executable linked high in the user half of the address space
+							// (5-level paging, arm64/s390x layouts): still user space, still the same formula
+							v0s = append(append([]uint64{}, v0Alphabet...), 1<<48)
+						}
+						for _, v0 := range v0s {
 							if !dyn && v0 == 0 {
 								continue // a fixed-address executable is never linked at page 0
 							}
@@ -189,7 +195,7 @@ func (l *Layout) Biases() []uint64 {
 	if !l.Dyn {
 		return []uint64{0}
 	}
-	out := []uint64{0x555555554000, 0x7f0000000000}
+	out := []uint64{0x555555554000, 0x7f0000000000, 1 << 48}
 	for _, b := range []uint64{0, 0x1000, 0x200000, ^uint64(huge) + 1} {
 		lo := l.V0 + b // start of the lowest mapping
 		if lo == 0 || lo >= 1<<62 {
